@@ -11,6 +11,7 @@ are DATA handed in by the harness (`pos`, `block`); everything else is computed 
   idraw xKEY xTIME xAK xSEED req                     → same for an initializes_crn_attributes stream
   filter xKEY xTIME xAK xSEED shift req probs        → ok kept…          probs: s:p | l:p,p,… | t:p,p,… (tuple) | x:i,i,…:p,p,…
   choice xKEY xTIME xAK xSEED req k weights          → ok i,i,…          weights: none | 1:Q:c,c | 2:Q:c,c;c,c  (c = n | R)
+  ifilter / ichoice (same arguments)                 → the same calls on an initializes_crn_attributes stream (positional draw)
   rchoice D draws k weights                          → `_choice` on given draws
 A seed string without a registered block → `err noblock` (never a default block). -/
 open Viv Viv.Proto Viv.Stream
@@ -142,6 +143,17 @@ def step (s : St) : List String → St × String
     | some req, some nc, some (q, w) =>
       if nc = 0 then (s, "bad-op") else
       (s, withKey s k t a sd fun ks => showRes (choiceStream s.blk s.size s.pos ks q nc w req))
+    | _, _, _ => (s, "bad-op")
+  | ["ifilter", k, t, a, sd, shift, req, probs] =>
+    match natList req, shift.toNat?, parseProbs probs with
+    | some req, some sh, some pr => (s, withKey s k t a sd fun ks =>
+        showRes (filterStreamInit s.blk s.size ks (2 ^ sh) req pr))
+    | _, _, _ => (s, "bad-op")
+  | ["ichoice", k, t, a, sd, req, nc, w] =>
+    match natList req, nc.toNat?, parseWeights w with
+    | some req, some nc, some (q, w) =>
+      if nc = 0 then (s, "bad-op") else
+      (s, withKey s k t a sd fun ks => showRes (choiceStreamInit s.blk s.size ks q nc w req))
     | _, _, _ => (s, "bad-op")
   | ["rchoice", d, draws, nc, w] =>
     match d.toNat?, natList draws, nc.toNat?, parseWeights w with
